@@ -150,3 +150,75 @@ def enum_switch_values(b, i):
             if s['d']['l'] == o['l'] and s['r']['k'] == 'discr' and 'enum' in s['r']:
                 names = {v: n for v, n in s['r']['enum']['vars']}
     return names
+
+
+def single_defs(b):
+    """local -> (block, statement or call terminator) for locals with exactly one definition."""
+    defs = {}
+    cnt = {}
+    for i, blk in enumerate(b.blocks):
+        if blk['c']:
+            continue
+        for s in blk['s']:
+            if not s['d']['pr']:
+                l = s['d']['l']
+                cnt[l] = cnt.get(l, 0) + 1
+                defs[l] = (i, s)
+        t = blk['t']
+        if t['k'] == 'call' and not t['d']['pr']:
+            l = t['d']['l']
+            cnt[l] = cnt.get(l, 0) + 1
+            defs[l] = (i, t)
+    return {l: d for l, d in defs.items() if cnt[l] == 1}
+
+
+def resolve_value(b, o, defs, depth=6):
+    """Follow copies/moves/casts of single-definition temporaries to the defining rvalue/call.
+    Returns ('const', v) | ('call', terminator) | ('rv', rvalue) | ('place', operand) ."""
+    for _ in range(depth):
+        if 'k' in o:
+            k = o['k']
+            if 'v' in k:
+                return ('const', k['v'])
+            return ('constx', k)
+        if 'l' not in o or o['pr']:
+            return ('place', o)
+        d = defs.get(o['l'])
+        if d is None:
+            return ('place', o)
+        x = d[1]
+        if 'k' in x and x['k'] == 'call':
+            return ('call', x)
+        r = x['r']
+        if r['k'] in ('use',) or (r['k'] == 'cast' and r['ck'] in ('IntToInt', 'PointerCoercion', 'Transmute')):
+            o = r['o'][0]
+            continue
+        return ('rv', r)
+    return ('place', o)
+
+
+def direct_cmp_switches(b, side_pred, const_pred=None):
+    """Switch blocks whose operand is defined (in single-assignment temporaries) as a comparison one of whose
+    sides satisfies side_pred(kind, value) and, if const_pred is given, whose other side is a constant satisfying it.
+    kind/value are those returned by resolve_value."""
+    defs = single_defs(b)
+    out = []
+    for i, t in b.switches():
+        kind, v = resolve_value(b, t['o'], defs)
+        if kind == 'rv' and v['k'] == 'un' and v['op'] == 'Not':
+            kind, v = resolve_value(b, v['o'][0], defs)
+        if kind != 'rv' or v['k'] != 'bin' or v['op'] not in ('Lt', 'Le', 'Gt', 'Ge', 'Eq', 'Ne'):
+            continue
+        sides = [resolve_value(b, o, defs) for o in v['o']]
+        for a, c in ((0, 1), (1, 0)):
+            if side_pred(*sides[a]) and (const_pred is None or (sides[c][0] == 'const' and const_pred(sides[c][1]))):
+                out.append((i, v['op'], a))
+                break
+    return out
+
+
+def is_call_to(rx):
+    r = re.compile(rx)
+    def p(kind, v):
+        return kind == 'call' and (r.search(v['f'].get('fn', '')) or r.search(v['f'].get('res', '') or ''))
+    return p
